@@ -29,31 +29,58 @@ const (
 	c15VString
 	c15VPtr
 	c15VErr
-	c15VNil
+	c15VNil // untyped nil (a nil error-typed variable passed as `any` is the same thing)
+	// typed nils: ordinary values of their static type, NOT untyped nil
+	c15VNilPtr
+	c15VNilSlice
+	c15VNilMap
+	c15VNilFunc
+	c15VNilChan
+	c15VNilErrPtr // (*c15Err)(nil): a typed nil pointer whose type implements error
 	c15NV
 )
 
-var c15VName = [c15NV]string{"int", "string", "*int", "error", "nil"}
+var c15VName = [c15NV]string{"int", "string", "*int", "error", "nil", "(*int)(nil)", "([]int)(nil)", "(map[string]int)(nil)",
+	"(func())(nil)", "(chan-int)(nil)", "(*c15Err)(nil)"}
+
+type c15Err struct{ s string }
+
+func (e *c15Err) Error() string { return "c15Err" }
 
 // element types of the target channels
 var c15Elem = []reflect.Type{
-	reflect.TypeOf(int(0)),
-	reflect.TypeOf((*interface{})(nil)).Elem(),
-	reflect.TypeOf(""),
-	reflect.TypeOf((*int)(nil)),
-	reflect.TypeOf((*error)(nil)).Elem(),
-	reflect.TypeOf([]int(nil)),
+	reflect.TypeOf(int(0)),                     // 0
+	reflect.TypeOf((*interface{})(nil)).Elem(), // 1
+	reflect.TypeOf(""),                         // 2
+	reflect.TypeOf((*int)(nil)),                // 3
+	reflect.TypeOf((*error)(nil)).Elem(),       // 4
+	reflect.TypeOf([]int(nil)),                 // 5
+	reflect.TypeOf((*string)(nil)),             // 6
+	reflect.TypeOf(map[string]int(nil)),        // 7
+	reflect.TypeOf((func())(nil)),              // 8
+	reflect.TypeOf((chan int)(nil)),            // 9
+	reflect.TypeOf((*c15Err)(nil)),             // 10
 }
 
 // c15Compat[value kind][element type]: may the value be sent on a channel of that element type.  Written out by hand
-// (the oracle must not be reflect's AssignableTo).  For untyped nil: the element type can hold nil.
+// (the oracle must not be reflect's AssignableTo).  For untyped nil: the element type can hold nil.  For a typed nil:
+// ordinary assignability of its static type (identical type, or an interface it implements).
 var c15Compat = [c15NV][]int{
-	c15VInt:    {1, 1, 0, 0, 0, 0},
-	c15VString: {0, 1, 1, 0, 0, 0},
-	c15VPtr:    {0, 1, 0, 1, 0, 0},
-	c15VErr:    {0, 1, 0, 0, 1, 0},
-	c15VNil:    {0, 1, 0, 1, 1, 1},
+	//                int any str *int err []int *str map func chan *c15Err
+	c15VInt:       {1, 1, 0, 0, 0, 0, 0, 0, 0, 0, 0},
+	c15VString:    {0, 1, 1, 0, 0, 0, 0, 0, 0, 0, 0},
+	c15VPtr:       {0, 1, 0, 1, 0, 0, 0, 0, 0, 0, 0},
+	c15VErr:       {0, 1, 0, 0, 1, 0, 0, 0, 0, 0, 0},
+	c15VNil:       {0, 1, 0, 1, 1, 1, 1, 1, 1, 1, 1},
+	c15VNilPtr:    {0, 1, 0, 1, 0, 0, 0, 0, 0, 0, 0},
+	c15VNilSlice:  {0, 1, 0, 0, 0, 1, 0, 0, 0, 0, 0},
+	c15VNilMap:    {0, 1, 0, 0, 0, 0, 0, 1, 0, 0, 0},
+	c15VNilFunc:   {0, 1, 0, 0, 0, 0, 0, 0, 1, 0, 0},
+	c15VNilChan:   {0, 1, 0, 0, 0, 0, 0, 0, 0, 1, 0},
+	c15VNilErrPtr: {0, 1, 0, 0, 1, 0, 0, 0, 0, 0, 1},
 }
+
+func c15TypedNil(kind int) bool { return kind >= c15VNilPtr && kind <= c15VNilErrPtr }
 
 func c15Value(kind, tag int) interface{} {
 	switch kind {
@@ -67,14 +94,39 @@ func c15Value(kind, tag int) interface{} {
 		return p
 	case c15VErr:
 		return errors.New(fmt.Sprintf("e%d", tag))
+	case c15VNilPtr:
+		return (*int)(nil)
+	case c15VNilSlice:
+		return ([]int)(nil)
+	case c15VNilMap:
+		return (map[string]int)(nil)
+	case c15VNilFunc:
+		return (func())(nil)
+	case c15VNilChan:
+		return (chan int)(nil)
+	case c15VNilErrPtr:
+		return (*c15Err)(nil)
 	}
-	return nil
+	var e error // a nil error-typed variable converts to the untyped nil interface
+	return e
 }
 
-// c15Same: is the received value the published one (for nil: the nil/zero value of the element type).
+// c15Same: is the received value identical to the published one.  Untyped nil: the nil/zero value of the element type.
+// Typed nil: a nil of exactly the published static type; on an interface-typed channel (interface{}, error) the interface
+// must HOLD that typed nil (it is not the nil interface, and its dynamic type is preserved).
 func c15Same(got reflect.Value, kind int, want interface{}) bool {
 	if kind == c15VNil {
 		return got.IsZero()
+	}
+	if c15TypedNil(kind) {
+		v := got
+		if v.Kind() == reflect.Interface {
+			if v.IsNil() {
+				return false
+			}
+			v = v.Elem()
+		}
+		return v.Type() == reflect.TypeOf(want) && v.IsNil()
 	}
 	defer func() { _ = recover() }()
 	return got.Interface() == want
@@ -164,7 +216,7 @@ func c15PublishCase(h *hctx, id int) (ok bool) {
 		s := &c15Sub{sid: 10 + i, elem: h.rng.Intn(len(c15Elem))}
 		if h.rng.Intn(100) < 45 {
 			// bias towards compatible element types so that most cases have something pending
-			for k := 0; k < 4 && c15Compat[vkind][s.elem] == 0; k++ {
+			for k := 0; k < 10 && c15Compat[vkind][s.elem] == 0; k++ {
 				s.elem = h.rng.Intn(len(c15Elem))
 			}
 		}
